@@ -108,15 +108,23 @@ Record pod := mkPod {
   p_tsc : list (string * bool);         (* topology spread: id, WhenUnsatisfiable = ScheduleAnyway *)
   p_tols : list toleration;
   p_ports : list hp;                    (* GetHostPorts(pod) *)
-  p_requests : rl;                      (* PodData.Requests (incl. "pods": 1000) *)
-  p_vols : list (string * string);      (* scheduling.GetVolumes(pod): CSI driver, PVC id *)
-  p_valts : list reqs;                  (* PodData.VolumeRequirements: alternatives computed by VolumeTopology.GetRequirements *)
-  p_volterms : list (list term)         (* SPEC side: per volume the OR-ed topology terms of its PV node affinity /
-                                           StorageClass allowedTopologies (hostname dropped for local volumes) *)
+  p_requests : rl                       (* PodData.Requests (incl. "pods": 1000) *)
 }.
 
-(* v1.NormalizedLabels: deprecated label keys are rewritten by NewRequirementWithFlexibility (the value table
-   v1.NormalizedLabelValues is empty in core; the harness checks both tables against the code on every run) *)
+(* the volume inputs of a pod, kept beside the pod record (which other developments share) *)
+Record vinfo := mkVI {
+  vi_vols : list (string * string);     (* scheduling.GetVolumes(pod): CSI driver, PVC id *)
+  vi_valts : list reqs;                 (* PodData.VolumeRequirements: alternatives computed by VolumeTopology.GetRequirements *)
+  vi_volterms : list (list term)        (* SPEC side: per volume the OR-ed topology terms of its PV node affinity /
+                                           StorageClass allowedTopologies (hostname dropped for local volumes) *)
+}.
+Definition vi0 : vinfo := mkVI [] [] [].
+Definition vpod := (pod * vinfo)%type.
+
+(* v1.NormalizedLabels: deprecated label keys are rewritten by NewRequirementWithFlexibility. The model works on
+   NORMALISED keys: the harness applies this renaming to the pod it hands to the model (the real code receives the
+   deprecated keys) and checks the table against the code on every run; the oracle below uses [nk] to read the label a
+   deprecated key aliases (the value table v1.NormalizedLabelValues is empty in core) *)
 Definition norm_table : list (string * string) :=
   [("failure-domain.beta.kubernetes.io/zone", "topology.kubernetes.io/zone");
    ("beta.kubernetes.io/arch", "kubernetes.io/arch");
@@ -125,12 +133,12 @@ Definition norm_table : list (string * string) :=
    ("failure-domain.beta.kubernetes.io/region", "topology.kubernetes.io/region")].
 Definition nk (k : string) : string := norm_key norm_table k.
 
-Definition expr_req (e : expr) : string * req := let '(k, o, vs) := e in (nk k, new_req o None vs).
+Definition expr_req (e : expr) : string * req := let '(k, o, vs) := e in (k, new_req o None vs).
 
 (* NewNodeSelectorRequirements(term...) *)
 Definition term_reqs (t : term) : reqs := add [] (map expr_req t).
 (* NewLabelRequirements(nodeSelector) *)
-Definition sel_reqs (s : list (string * string)) : reqs := add [] (map (fun kv => (nk (fst kv), new_req In None [snd kv])) s).
+Definition sel_reqs (s : list (string * string)) : reqs := add [] (map (fun kv => (fst kv, new_req In None [snd kv])) s).
 
 (* stable sort, descending weight (sort.SliceStable(terms, w[i] > w[j])): an earlier element stays in front of
    later ones of equal weight *)
@@ -276,8 +284,8 @@ Definition pod_vol_alts (volumes : list (bool * list term)) : list reqs :=
   end.
 
 (* the alternatives CanAdd iterates: a single "no constraint" entry when there are none *)
-Definition alt_list (p : pod) : list (option reqs) :=
-  match p_valts p with [] => [None] | l => map Some l end.
+Definition alt_list (vi : vinfo) : list (option reqs) :=
+  match vi_valts vi with [] => [None] | l => map Some l end.
 
 (* ------------------------------------------------------------------ NodeClaim *)
 Record nclaim := mkNC {
@@ -321,7 +329,7 @@ Definition nc_try (wk : list string) (cat : list itype) (relax : bool) (n : ncla
       end
   end.
 
-(* NodeClaim.CanAdd: updated requirements, instance types.
+(* NodeClaim.CanAdd for a pod without volume requirements: updated requirements, instance types.
    [all]: preference policy Respect (pod requirements include the heaviest preferred term). *)
 Definition nc_can_add (wk : list string) (cat : list itype) (all relax : bool) (n : nclaim) (p : pod)
   : res (reqs * list string) :=
@@ -329,7 +337,23 @@ Definition nc_can_add (wk : list string) (cat : list itype) (all relax : bool) (
   else
     let pr := pod_reqs all p in
     if negb (compatible wk (nc_reqs n) pr) then Err EReqs
-    else first_ok (nc_try wk cat relax n p (add (nc_reqs n) pr)) (alt_list p) (Err EVolReqs).
+    else
+      let r := add (nc_reqs n) pr in
+      let total := rmerge (nc_requests n) (p_requests p) in
+      match filter_its wk cat (nc_its n) r (p_key p) (p_ports p) (nc_groups n) total relax with
+      | (_, _, Some FMinValues) => Err EMinValues
+      | (_, _, Some FNone) => Err EFilter
+      | (rem, unsat, None) => Ok ((if relax then set_minv r unsat else r), map it_name rem)
+      end.
+
+(* NodeClaim.CanAdd in general: the volume-topology alternatives are tried in order *)
+Definition nc_can_add_v (wk : list string) (cat : list itype) (all relax : bool) (n : nclaim) (p : pod) (vi : vinfo)
+  : res (reqs * list string) :=
+  if negb (tolerates_all (nc_taints n) (p_tols p)) then Err ETaints
+  else
+    let pr := pod_reqs all p in
+    if negb (compatible wk (nc_reqs n) pr) then Err EReqs
+    else first_ok (nc_try wk cat relax n p (add (nc_reqs n) pr)) (alt_list vi) (Err EVolReqs).
 
 (* NodeClaim.Add *)
 Definition nc_add (n : nclaim) (p : pod) (r : reqs) (its : list string) : nclaim :=
@@ -344,15 +368,19 @@ Definition nc_step (wk : list string) (cat : list itype) (all relax : bool) (n :
   | Err e => (n, Err e)
   end.
 
+Definition nc_step_v (wk : list string) (cat : list itype) (all relax : bool) (n : nclaim) (p : pod) (vi : vinfo) : nclaim * res (reqs * list string) :=
+  match nc_can_add_v wk cat all relax n p vi with
+  | Ok (r, its) => (nc_add n p r its, Ok (r, its))
+  | Err e => (n, Err e)
+  end.
+
 (* ------------------------------------------------------------------ ExistingNode *)
 Record enode := mkEN {
   en_taints : list taint;
   en_reqs : reqs;
   en_remaining : rl;
   en_ports : usage;
-  en_pods : list pod;
-  en_vols : vols;                    (* VolumeUsage.volumes *)
-  en_vlimits : list (string * Z)     (* VolumeUsage.limits (CSINode allocatable counts) *)
+  en_pods : list pod
 }.
 
 (* NewExistingNode: remaining = available - max(0, daemonResources - alreadyScheduledDaemonRequests) *)
@@ -361,25 +389,44 @@ Definition new_existing_remaining (available daemon_total ds_scheduled : rl) : r
   let d := map (fun kv => (fst kv, if snd kv <? 0 then 0 else snd kv)) d in
   rsub available d.
 
+(* ExistingNode.CanAdd for a pod without volumes *)
+Definition ex_can_add (all : bool) (n : enode) (p : pod) : res reqs :=
+  if negb (tolerates_all (en_taints n) (p_tols p)) then Err ETaints
+  else if conflicts (en_ports n) (p_key p) (p_ports p) then Err EPorts
+  else if negb (fits (p_requests p) (en_remaining n)) then Err EResources
+  else
+    let pr := pod_reqs all p in
+    if negb (compatible [] (en_reqs n) pr) then Err EReqs
+    else Ok (add (en_reqs n) pr).
+
+Definition ex_add (n : enode) (p : pod) (r : reqs) : enode :=
+  mkEN (en_taints n) r (rsub_from (en_remaining n) (p_requests p)) (uset (en_ports n) (p_key p) (p_ports p)) (en_pods n ++ [p]).
+
+(* ---- with volumes: the node's VolumeUsage (union of attached volumes, CSINode attach limits) beside the node ---- *)
+Record venode := mkVEN { ve_node : enode; ve_vols : vols; ve_vlimits : list (string * Z) }.
+
 Definition ex_try (base : reqs) (alt : option reqs) : res reqs :=
   match alt with
   | None => Ok base
   | Some a => if compatible [] base a then Ok (add base a) else Err EVolReqs
   end.
 
-Definition ex_can_add (all : bool) (n : enode) (p : pod) : res reqs :=
+Definition ex_can_add_v (all : bool) (vn : venode) (p : pod) (vi : vinfo) : res reqs :=
+  let n := ve_node vn in
   if negb (tolerates_all (en_taints n) (p_tols p)) then Err ETaints
-  else if exceeds_limits (en_vlimits n) (en_vols n) (p_vols p) then Err EVolumes
+  else if exceeds_limits (ve_vlimits vn) (ve_vols vn) (vi_vols vi) then Err EVolumes
   else if conflicts (en_ports n) (p_key p) (p_ports p) then Err EPorts
   else if negb (fits (p_requests p) (en_remaining n)) then Err EResources
   else
     let pr := pod_reqs all p in
     if negb (compatible [] (en_reqs n) pr) then Err EReqs
-    else first_ok (ex_try (add (en_reqs n) pr)) (alt_list p) (Err EVolReqs).
+    else first_ok (ex_try (add (en_reqs n) pr)) (alt_list vi) (Err EVolReqs).
 
-Definition ex_add (n : enode) (p : pod) (r : reqs) : enode :=
-  mkEN (en_taints n) r (rsub_from (en_remaining n) (p_requests p)) (uset (en_ports n) (p_key p) (p_ports p)) (en_pods n ++ [p])
-       (en_vols n ++ p_vols p) (en_vlimits n).
+Definition ex_step_v (all : bool) (vn : venode) (p : pod) (vi : vinfo) : venode * res reqs :=
+  match ex_can_add_v all vn p vi with
+  | Ok r => (mkVEN (ex_add (ve_node vn) p r) (ve_vols vn ++ vi_vols vi) (ve_vlimits vn), Ok r)
+  | Err e => (vn, Err e)
+  end.
 
 Definition ex_step (all : bool) (n : enode) (p : pod) : enode * res reqs :=
   match ex_can_add all n p with
@@ -394,17 +441,17 @@ Definition tol_eqb (a b : toleration) : bool :=
   String.eqb (tl_op a) (tl_op b) && String.eqb (tl_val a) (tl_val b).
 
 Definition with_req (p : pod) (x : list term) : pod :=
-  mkPod (p_key p) (p_sel p) x (p_pref p) (p_paff p) (p_panti p) (p_tsc p) (p_tols p) (p_ports p) (p_requests p) (p_vols p) (p_valts p) (p_volterms p).
+  mkPod (p_key p) (p_sel p) x (p_pref p) (p_paff p) (p_panti p) (p_tsc p) (p_tols p) (p_ports p) (p_requests p).
 Definition with_pref (p : pod) (x : list (Z * term)) : pod :=
-  mkPod (p_key p) (p_sel p) (p_req p) x (p_paff p) (p_panti p) (p_tsc p) (p_tols p) (p_ports p) (p_requests p) (p_vols p) (p_valts p) (p_volterms p).
+  mkPod (p_key p) (p_sel p) (p_req p) x (p_paff p) (p_panti p) (p_tsc p) (p_tols p) (p_ports p) (p_requests p).
 Definition with_paff (p : pod) (x : list (Z * string)) : pod :=
-  mkPod (p_key p) (p_sel p) (p_req p) (p_pref p) x (p_panti p) (p_tsc p) (p_tols p) (p_ports p) (p_requests p) (p_vols p) (p_valts p) (p_volterms p).
+  mkPod (p_key p) (p_sel p) (p_req p) (p_pref p) x (p_panti p) (p_tsc p) (p_tols p) (p_ports p) (p_requests p).
 Definition with_panti (p : pod) (x : list (Z * string)) : pod :=
-  mkPod (p_key p) (p_sel p) (p_req p) (p_pref p) (p_paff p) x (p_tsc p) (p_tols p) (p_ports p) (p_requests p) (p_vols p) (p_valts p) (p_volterms p).
+  mkPod (p_key p) (p_sel p) (p_req p) (p_pref p) (p_paff p) x (p_tsc p) (p_tols p) (p_ports p) (p_requests p).
 Definition with_tsc (p : pod) (x : list (string * bool)) : pod :=
-  mkPod (p_key p) (p_sel p) (p_req p) (p_pref p) (p_paff p) (p_panti p) x (p_tols p) (p_ports p) (p_requests p) (p_vols p) (p_valts p) (p_volterms p).
+  mkPod (p_key p) (p_sel p) (p_req p) (p_pref p) (p_paff p) (p_panti p) x (p_tols p) (p_ports p) (p_requests p).
 Definition with_tols (p : pod) (x : list toleration) : pod :=
-  mkPod (p_key p) (p_sel p) (p_req p) (p_pref p) (p_paff p) (p_panti p) (p_tsc p) x (p_ports p) (p_requests p) (p_vols p) (p_valts p) (p_volterms p).
+  mkPod (p_key p) (p_sel p) (p_req p) (p_pref p) (p_paff p) (p_panti p) (p_tsc p) x (p_ports p) (p_requests p).
 
 (* removeTopologySpreadScheduleAnyway: first ScheduleAnyway entry is overwritten with the last, slice shrinks by one *)
 Fixpoint tsc_remove (l : list (string * bool)) : option (list (string * bool)) :=
@@ -500,30 +547,34 @@ Definition resources_ok (ps : list pod) (overhead alloc : rl) : Prop :=
 
 (* every volume of the pod is usable from the node: it has no topology terms, or some OR-ed term of its PV node
    affinity / StorageClass allowedTopologies holds for every label the node may get *)
-Definition vol_zone_ok (eff : string -> option req) (p : pod) : Prop :=
-  forall terms, List.In terms (p_volterms p) ->
+Definition vol_zone_ok (eff : string -> option req) (vi : vinfo) : Prop :=
+  forall terms, List.In terms (vi_volterms vi) ->
     terms = [] \/ exists t, List.In t terms /\ forall x, List.In x t -> expr_ok eff x.
 
 (* distinct volumes per CSI driver within the node's attach limits (CSINode allocatable count) *)
-Definition vol_limits_ok (limits : list (string * Z)) (ps : list pod) : Prop :=
-  forall d l, List.In (d, l) limits -> vcount d (flat_map p_vols ps) <= l.
+Definition vol_limits_ok (limits : list (string * Z)) (vis : list vinfo) : Prop :=
+  forall d l, List.In (d, l) limits -> vcount d (flat_map vi_vols vis) <= l.
 
-(* a node view: effective label requirements, taints, allocatable, expected daemons, CSI attach limits *)
+(* a node view: effective label requirements, taints, allocatable, expected daemons *)
 Record nview := mkView {
   v_eff : string -> option req;
   v_taints : list taint;
   v_alloc : rl;
   v_overhead : rl;
-  v_dports : list hp;
-  v_vlimits : list (string * Z)
+  v_dports : list hp
 }.
 
 (* [ps]: the pods with their ORIGINAL specs *)
 Definition admissible (v : nview) (ps : list pod) : Prop :=
-  (forall p, List.In p ps -> labels_ok (v_eff v) p /\ k8s_tolerated (v_taints v) (p_tols p) /\ vol_zone_ok (v_eff v) p) /\
+  (forall p, List.In p ps -> labels_ok (v_eff v) p /\ k8s_tolerated (v_taints v) (p_tols p)) /\
   ports_ok ps (v_dports v) /\
-  resources_ok ps (v_overhead v) (v_alloc v) /\
-  vol_limits_ok (v_vlimits v) ps.
+  resources_ok ps (v_overhead v) (v_alloc v).
+
+(* ... and with volumes: [vlimits] the CSI attach limits of the node (CSINode), [ps] pods with their volume inputs *)
+Definition admissible_v (v : nview) (vlimits : list (string * Z)) (ps : list vpod) : Prop :=
+  admissible v (map fst ps) /\
+  (forall vp, List.In vp ps -> vol_zone_ok (v_eff v) (snd vp)) /\
+  vol_limits_ok vlimits (map snd ps).
 
 (* relaxation may only: drop leading OR-ed required terms while one is left, drop preferred terms,
    drop ScheduleAnyway spread constraints, append the PreferNoSchedule toleration *)
@@ -611,15 +662,18 @@ Definition resources_ok_b (ps : list pod) (overhead alloc : rl) : bool :=
   forallb (fun k => rsum (map p_requests ps) k + rget k overhead <=? rget k alloc)
           (rkeys (overhead :: alloc :: map p_requests ps)) .
 
-Definition vol_zone_ok_b (eff : string -> option req) (p : pod) : bool :=
-  forallb (fun terms => match terms with [] => true | _ => existsb (fun t => forallb (expr_ok_b eff) t) terms end) (p_volterms p).
+Definition vol_zone_ok_b (eff : string -> option req) (vi : vinfo) : bool :=
+  forallb (fun terms => match terms with [] => true | _ => existsb (fun t => forallb (expr_ok_b eff) t) terms end) (vi_volterms vi).
 
-Definition vol_limits_ok_b (limits : list (string * Z)) (ps : list pod) : bool :=
-  forallb (fun dl => vcount (fst dl) (flat_map p_vols ps) <=? snd dl) limits.
+Definition vol_limits_ok_b (limits : list (string * Z)) (vis : list vinfo) : bool :=
+  forallb (fun dl => vcount (fst dl) (flat_map vi_vols vis) <=? snd dl) limits.
 
 Definition admissible_b (v : nview) (ps : list pod) : bool :=
-  forallb (fun p => labels_ok_b (v_eff v) p && k8s_tolerated_b (v_taints v) (p_tols p) && vol_zone_ok_b (v_eff v) p) ps &&
-  ports_ok_b ps (v_dports v) && resources_ok_b ps (v_overhead v) (v_alloc v) && vol_limits_ok_b (v_vlimits v) ps.
+  forallb (fun p => labels_ok_b (v_eff v) p && k8s_tolerated_b (v_taints v) (p_tols p)) ps &&
+  ports_ok_b ps (v_dports v) && resources_ok_b ps (v_overhead v) (v_alloc v).
+
+Definition admissible_vb (v : nview) (vlimits : list (string * Z)) (ps : list vpod) : bool :=
+  admissible_b v (map fst ps) && forallb (fun vp : vpod => vol_zone_ok_b (v_eff v) (snd vp)) ps && vol_limits_ok_b vlimits (map snd ps).
 
 (* ---- expected daemons: a daemon MAY run on the node when some labelling the node can get
    satisfies its selector and one of its required terms and its taints are tolerated (over-approximation
@@ -685,7 +739,7 @@ Record lopt := mkOpt { o_name : string; o_reqs : reqs; o_offers : list offer }.
 Definition view_new (wk : list string) (r : reqs) (ts : list taint) (o : lopt) (f : offer) (daemons : list pod) : nview :=
   let eff := eff_new wk r (o_reqs o) (of_reqs f) in
   let ds := expected_daemons eff ts daemons in
-  mkView eff ts (of_alloc f) (roverhead ds) (flat_map p_ports ds) [].   (* no CSINode yet: no attach limit is known for a new claim *)
+  mkView eff ts (of_alloc f) (roverhead ds) (flat_map p_ports ds).
 
 (* for EVERY remaining instance type SOME available offering compatible with the claim's requirements
    under which the placement of all pods is admissible *)
@@ -697,15 +751,28 @@ Definition claim_admissible_b (wk : list string) (r : reqs) (ts : list taint) (o
 
 (* an existing node: labels are known; [bound] are the pods already on it (their requests count),
    [daemons] the daemonsets without a pod on the node yet *)
-Definition view_existing (labels : list (string * string)) (ts : list taint) (alloc : rl) (vlimits : list (string * Z)) (daemons : list pod) : nview :=
+Definition view_existing (labels : list (string * string)) (ts : list taint) (alloc : rl) (daemons : list pod) : nview :=
   let eff := eff_labels labels in
   let ds := expected_daemons eff ts daemons in
-  mkView eff ts alloc (roverhead ds) (flat_map p_ports ds) vlimits.
+  mkView eff ts alloc (roverhead ds) (flat_map p_ports ds).
 
 (* bound pods are facts (ports and requests count, their own constraints are not re-judged) *)
-Definition existing_admissible_b (labels : list (string * string)) (ts : list taint) (alloc : rl) (vlimits : list (string * Z))
+Definition existing_admissible_b (labels : list (string * string)) (ts : list taint) (alloc : rl)
            (bound placed daemons : list pod) : bool :=
-  let v := view_existing labels ts alloc vlimits daemons in
-  forallb (fun p => labels_ok_b (v_eff v) p && k8s_tolerated_b (v_taints v) (p_tols p) && vol_zone_ok_b (v_eff v) p) placed &&
-  ports_ok_gen_b placed (placed ++ bound) (v_dports v) && resources_ok_b (placed ++ bound) (v_overhead v) (v_alloc v) &&
-  vol_limits_ok_b (v_vlimits v) (placed ++ bound).
+  let v := view_existing labels ts alloc daemons in
+  forallb (fun p => labels_ok_b (v_eff v) p && k8s_tolerated_b (v_taints v) (p_tols p)) placed &&
+  ports_ok_gen_b placed (placed ++ bound) (v_dports v) && resources_ok_b (placed ++ bound) (v_overhead v) (v_alloc v).
+
+(* ---- with volumes ---- *)
+(* for a new claim no CSINode exists yet: no attach limit is known *)
+Definition claim_admissible_vb (wk : list string) (r : reqs) (ts : list taint) (opts : list lopt)
+           (pods : list vpod) (daemons : list pod) : bool :=
+  match opts with [] => false | _ =>
+  forallb (fun o => existsb (fun f => compatible wk r (of_reqs f) && admissible_vb (view_new wk r ts o f daemons) [] pods)
+                            (o_offers o)) opts end.
+
+Definition existing_admissible_vb (labels : list (string * string)) (ts : list taint) (alloc : rl) (vlimits : list (string * Z))
+           (bound placed : list vpod) (daemons : list pod) : bool :=
+  existing_admissible_b labels ts alloc (map fst bound) (map fst placed) daemons &&
+  forallb (fun vp : vpod => vol_zone_ok_b (eff_labels labels) (snd vp)) placed &&
+  vol_limits_ok_b vlimits (map snd (placed ++ bound)).
